@@ -174,6 +174,28 @@ def run_mixed(shard, mon, S, table):
                 cls = R.position_classes(spec["bban_spec"])[s_]
                 alt = fb[:s_] + "".join(cls[(cls.index(c) + 1) % len(cls)] for c in fb[s_:e_]) + fb[e_:]
                 judge_one(mon, S, cc, alt, table, "mixed-twin")
+    # the very same BBAN text validated nationally under two countries, in both orders: for every algorithm
+    # country B and every country A of equal length whose structure admits B's text
+    for B in sorted(c_ for c_ in shard["countries"] if N.LENGTHS.get(c_) == table[c_]["bban_length"]):
+        partners = [a_ for a_ in sorted(table) if a_ != B and table[a_]["bban_length"] == table[B]["bban_length"]]
+        for A in partners[: 6 if shard["tier"] == "quick" else 40]:
+            for first in (A, B):
+                fb = None
+                for _ in range(30):
+                    cand = N.force_valid(B, gen.random_bban(table[B], rng, "digits" if _ < 25 else "uniform"))
+                    if cand and R.matches_spec(table[B]["bban_spec"], cand) and R.matches_spec(table[A]["bban_spec"], cand):
+                        fb = cand
+                        break
+                if fb is None:
+                    break
+                second = B if first == A else A
+                observe(S.IBAN, R.make_iban(first, fb), validate_bban=True)
+                observe(lambda: S.BBAN(first, fb).validate_national_checksum())
+                if second in N.LENGTHS and N.LENGTHS.get(second) == table[second]["bban_length"]:
+                    judge_one(mon, S, second, fb, table, f"same-text-after-{first}")
+                if first in N.LENGTHS and N.LENGTHS.get(first) == table[first]["bban_length"]:
+                    judge_one(mon, S, first, fb, table, f"same-text-again-after-{second}")
+                mon.tally("same_bban_text_under_two_countries")
     mon.tally("mixed_rounds", n)
     mon.sample({"mixed_digit_string": D, "countries": order[:5]})
 
